@@ -32,3 +32,6 @@ pub fn __btree_chain_collect(a: BTreeMap<String, String>, b: BTreeMap<String, St
 { a.into_iter().chain(b).collect() }
 
 pub open spec fn pick<T>(a: Option<T>, b: Option<T>) -> Option<T> { if a is Some { a } else { b } }
+
+pub uninterp spec fn dur_secs(d: Duration) -> u64;
+pub assume_specification [Duration::as_secs] (d: &Duration) -> (r: u64) ensures r == dur_secs(*d);
